@@ -2,6 +2,7 @@
 import GdModel.Driver.Conv
 import GdModel.Driver.Field
 import GdModel.Driver.Tok
+import GdModel.Driver.Disk
 open GdModel.Driver
 
 structure St where
@@ -30,6 +31,11 @@ def step (st : St) (line : String) : St × String :=
   | "spf" :: rest => (st, handleSpf st.db rest)
   | "bof" :: rest => (st, handleBof st.spec st.db rest)
   | "nframes" :: _ => (st, handleNframes st.db)
+  | "bytes" :: rest => (st, handleBytes st.db rest)
+  | "baredecode" :: rest => (st, handleBareDecode rest)
+  | "siedecode" :: rest => (st, handleSieDecode rest)
+  | "textdecode" :: rest => (st, handleTextDecode rest)
+  | "textencode" :: rest => (st, handleTextEncode rest)
   | [] => (st, "-")
   | w :: _ => if w.startsWith "#" then (st, "-") else (st, "-")
 
